@@ -277,7 +277,8 @@ class Scripts(Stream):
             "shared-suffix names) rendered with none/greedy/random compression, 45% with 1-2 targeted mutations (RDLENGTH, counts, "
             "pointer retarget, label bytes/lengths, truncation, trailing bytes), 12% random bytes; script = header, questions "
             "(question/question_ref/the_question/skip), header/data pairs (4 header kinds x skip/bytes/typed right+wrong type/opt, data "
-            "call only if the header call succeeded), seeks/counts/random access/borrowed-name ops sprinkled anywhere, 1-2 passes. "
+            "call only if the header call succeeded), seeks/counts/random access/borrowed-name ops sprinkled anywhere, 1-2 passes; every tenth "
+            "script replays a section (read it to its end, seek back to it, read it to its end again, seek on, read the rest). "
             "Non-trivial: at least one record header call succeeded. Distinct by (message, script).")
 
     def generate(self, rng, tier, pid):
@@ -1107,6 +1108,8 @@ class RRSet(Stream):
     def oracle(self, line, impl, spec, pid):
         if impl.startswith(ABNORMAL) or "PANIC" in impl:
             return "implementation " + impl[:60]
+        if pid == "C01":
+            return None      # C01 uses these CNAME graphs (loops, self-loops, forks) as hostile input only: crash / hang / panic
         cid = line.split(" ", 1)[0]
         exp = getattr(self, "expect", {}).get(cid)
         if exp is None:
